@@ -19,7 +19,6 @@ import (
 	"github.com/glowlabs-org/gca-backend/glow"
 	"github.com/glowlabs-org/gca-backend/server"
 
-	"verifh/ev"
 	"verifh/pool"
 	"verifh/shim/vrand"
 )
@@ -445,7 +444,7 @@ func init() {
 		return c11Round(j), nil
 	})
 	checks["C11"] = func(tier string) int {
-		run := ev.NewRun("C11", tier, "exploration")
+		run := newRun("C11", tier, "exploration")
 		var jobs []interface{}
 		for s := 0; s < 16; s++ {
 			jobs = append(jobs, c11Job{Part: "shapes", Shard: s, N: 16})
